@@ -1,3 +1,4 @@
+use std::collections::HashMap;
 use std::sync::atomic::Ordering;
 use std::sync::Arc;
 use std::time::Instant;
@@ -9,6 +10,21 @@ use crate::replication_ops::*;
 use crate::security::*;
 //use crate::consensus_ops::*;
 use log;
+
+/// A session is counted in one database at a time: selecting again (the same or another
+/// database) first gives back the connection counted for the previous selection
+fn leave_previous_selection(
+    previous: &Option<String>,
+    dbs_map: &HashMap<String, Database>,
+    dbs: &Arc<Databases>,
+) {
+    if let Some(previous_name) = previous {
+        if let Some(previous_db) = dbs_map.get(previous_name) {
+            previous_db.dec_connections();
+            set_connection_counter(previous_db, dbs);
+        }
+    }
+}
 
 fn process_request_obj(request: &Request, dbs: &Arc<Databases>, client: &mut Client) -> Response {
     match request.clone() {
@@ -261,6 +277,7 @@ fn process_request_obj(request: &Request, dbs: &Arc<Databases>, client: &mut Cli
                             let mut user_name_state = client.selected_db.user_name.write().unwrap();
 
                             if is_valid_user_token(&token, &user_name, db) {
+                                leave_previous_selection(&*db_name_state, &dbs_map, &dbs);
                                 let _ = std::mem::replace(&mut *db_name_state, Some(name.clone()));
                                 let _ = std::mem::replace(
                                     &mut *user_name_state,
@@ -278,6 +295,7 @@ fn process_request_obj(request: &Request, dbs: &Arc<Databases>, client: &mut Cli
                         None => {
                             if is_valid_token(&token, db) {
                                 let mut db_name_state = client.selected_db.name.write().unwrap();
+                                leave_previous_selection(&*db_name_state, &dbs_map, &dbs);
                                 let _ = std::mem::replace(&mut *db_name_state, Some(name.clone()));
                                 db.inc_connections(); //Increment the number of connections
                                 set_connection_counter(db, &dbs);
